@@ -6,12 +6,12 @@ OPT from O2 (small) or planted perfect packings (large).
 import time
 from fractions import Fraction as F
 from rv.props import common as C
-from rv import oracles as O, gen
+from rv import oracles as O, gen, refmodels as R
 
 LEVEL = "exploration"
 RULE = ("bounded-exhaustive: every arrival sequence of <= 4 (thorough 5) items over 0..C, C in {4,6,7}, and every multiset of <= 6 (7) items for the decreasing variants (completion in grid_exhaustive_complete_shards); then first-fit, best-fit, FFD, BFD in every arrival order (random, ascending, descending, big-small alternation) on random, hardpack, repeat, threshold, zeros, equal classes "
-        "(ints and dyadic fractions), 1% many-bins cases (300-1500 items, several hundred bins), the FFD non-monotonicity examples, and planted perfect packings up to 200 items; non-trivial = >= 3 bins; distinct on (algorithm, binsize, value sequence)")
-ASSUMPTIONS = ["OPT from O2 for n <= 12, from the planted construction otherwise; instances with neither only get the any-fit invariant"]
+        "(ints and dyadic fractions), 1% many-bins cases (300-1500 items, several hundred bins), the FFD non-monotonicity examples, patterned arrival orders (a short pattern of halves/thirds/tiny items repeated up to 40 times; OPT bounded from above by reference FFD/BFD packings, which makes the bound checks sound without OPT), and planted perfect packings up to 200 items; non-trivial = >= 3 bins; distinct on (algorithm, binsize, value sequence)")
+ASSUMPTIONS = ["OPT from O2 for n <= 12, from the planted construction otherwise; instances with neither get the any-fit invariant and the bounds against a certified upper bound on OPT (reference FFD/BFD packings)"]
 FLOORS = {"quick": {"distinct_nontrivial": 20000, "with_opt": 5000}, "thorough": {"distinct_nontrivial": 100000, "with_opt": 25000}}
 ALGS = ("ff", "bf", "ffd", "bfd")
 NONMONO = [(60, [44, 24, 24, 22, 21, 17, 8, 8, 6, 6]), (61, [44, 24, 24, 22, 21, 17, 8, 8, 6, 6]),
@@ -54,6 +54,21 @@ def judge(case, ctx):
         except O.OracleBudget:
             opt = None
     n = len(bins)
+    if opt is None and pos and len(pos) <= 400:
+        # certificate: the better of two reference packings (first-fit-decreasing, best-fit-decreasing transcribed in rv/refmodels.py) is an UPPER bound U on OPT;
+        # more than floor(1.7*U) bins is then certainly more than floor(1.7*OPT) (same for the 11/9 bounds) - sound without knowing OPT
+        ub = min(len(R.first_fit_decreasing(pos, Cs)), len(R.best_fit_decreasing(pos, Cs)))
+        ctx.counters["with_opt_upper_bound"] += 1
+        w["opt_upper_bound"] = ub
+        if alg in ("ff", "bf") and n > (17 * ub) // 10:
+            ctx.violation("more_than_1.7_OPT_bins", alg, case, dict(w, bins_used=n))
+            return
+        if alg == "ffd" and F(n) > F(11, 9) * ub + F(6, 9):
+            ctx.violation("ffd_bound_exceeded", alg, case, dict(w, bins_used=n))
+            return
+        if alg == "bfd" and F(n) > F(11, 9) * ub + 4:
+            ctx.violation("bfd_bound_exceeded", alg, case, dict(w, bins_used=n))
+            return
     if opt is not None:
         ctx.counters["with_opt"] += 1
         w["opt"] = opt
@@ -84,6 +99,17 @@ def draw(rng, alg):
         Cs, v, m = gen.planted_packing(rng, m, rng.choice([10, 30, 100, 1000]))
         order = rng.choice(gen.ORDERS)
         return {"kind": "pack", "alg": alg, "C": Cs, "values": gen.arrange(rng, v, order), "cls": "planted", "order": order, "planted_opt": m, "pres": "list", "pres_seed": 0}
+    if x < 0.42:
+        # patterned arrival orders: a short pattern of sizes (halves, thirds, quarters, tiny items, near-misses) repeated many times - the orders on which a fit rule that
+        # scans in the wrong direction wastes the most bins; OPT is bounded from above by reference packings (see judge)
+        Cs = rng.choice([12, 20, 30, 60, 100, 120, 1000, rng.randint(10, 400)])
+        palette = [Cs // 2, Cs // 2, Cs // 2 + 1, Cs // 2 - 1, Cs // 3, Cs // 3 + 1, Cs // 4, max(1, Cs // 20), 1, 1, 2, rng.randint(1, max(1, Cs // 12)), rng.randint(1, Cs), Cs - 1, Cs - Cs // 3]
+        pat = [rng.choice(palette) for _ in range(rng.choice([2, 2, 2, 3, 4]))]
+        reps = rng.choice([4, 8, 12, 16, 24, 40])
+        v = pat * reps
+        if rng.random() < 0.3:
+            v = v + [rng.choice(palette) for _ in range(rng.randint(1, 6))]
+        return {"kind": "pack", "alg": alg, "C": Cs, "values": v, "cls": "patterned_order", "order": "pattern", "pres": "list", "pres_seed": 0}
     if rng.random() < 0.01:
         Cs, v = gen.pack_instance(rng, "manybins")
         return {"kind": "pack", "alg": alg, "C": Cs, "values": v, "cls": "manybins", "order": "random", "pres": "list", "pres_seed": 0}
